@@ -28,6 +28,32 @@ theorem C09_chain (i0 : Nat) (srcs : List (List MMsg)) :
 theorem C09_index (i0 : Nat) (l : List MMsg) : (renumber i0 l).map (·.index) = List.range' i0 l.length := by
   unfold renumber; simpa using zipIdx_map_index l i0 0
 
+/-- the `new_or_single_it` variants are the merge / the chain for every family that is not exactly one source -/
+theorem C09_or_single_multi (i0 : Nat) (srcs : List (List MMsg)) (h : srcs.length ≠ 1) :
+    mergeOrSingle i0 srcs = renumber i0 (merge srcs) ∧ chainOrSingle i0 srcs = seqChain i0 srcs := by
+  match srcs, h with
+  | [], _ => exact ⟨rfl, rfl⟩
+  | [_], h => simp at h
+  | _ :: _ :: _, _ => exact ⟨rfl, rfl⟩
+
+/-- numbering of the `new_or_single_it` variants: consecutive from the start index for every family that is not exactly
+    one source. **Partial**: for exactly one source the statement is false of the unchanged code
+    (`C09_single_source_witness`; open known finding) -/
+theorem C09_or_single_numbering_partial (i0 : Nat) (srcs : List (List MMsg)) (h : srcs.length ≠ 1) :
+    (mergeOrSingle i0 srcs).map (·.index) = List.range' i0 (mergeOrSingle i0 srcs).length ∧
+    (chainOrSingle i0 srcs).map (·.index) = List.range' i0 (chainOrSingle i0 srcs).length := by
+  obtain ⟨e1, e2⟩ := C09_or_single_multi i0 srcs h
+  rw [e1, e2]
+  refine ⟨?_, ?_⟩
+  · rw [C09_index]; simp [renumber]
+  · unfold seqChain; rw [C09_index]; simp [renumber]
+
+/-- the single-source shortcut: one source with own numbering 7.. and start index 5 comes back numbered 7.. -/
+theorem C09_single_source_witness :
+    (mergeOrSingle 5 [[{ src := 0, pos := 0, recv := 1, index := 7 }, { src := 0, pos := 1, recv := 2, index := 8 }]]).map (·.index) = [7, 8] ∧
+    (chainOrSingle 5 [[{ src := 0, pos := 0, recv := 1, index := 7 }, { src := 0, pos := 1, recv := 2, index := 8 }]]).map (·.index) = [7, 8] ∧
+    List.range' 5 2 = [5, 6] := by decide
+
 /-- non-vacuity: the acceptor accepts both orders of a tie and rejects a loss -/
 example : accepts [[{ src := 0, pos := 0, recv := 5 }], [{ src := 1, pos := 0, recv := 5 }]]
             [{ src := 1, pos := 0, recv := 5 }, { src := 0, pos := 0, recv := 5 }] = true ∧
